@@ -354,6 +354,13 @@ async fn exec_once(sc: &Scen, x_runtime: Option<tokio::runtime::Handle>) -> (Out
         return (out, None);
     }
     tokio::time::sleep(Duration::from_millis(if vanish { 4000 } else { 1500 })).await;
+    // confirm before reporting (busy host): if the connection is not terminal yet or a channel reader has not
+    // returned yet, keep polling for up to 4 more seconds — a genuine hang is still there afterwards
+    for _ in 0..40 {
+        let term = matches!(*peer_rx.borrow(), PeerConnectionState::Disconnected | PeerConnectionState::Failed | PeerConnectionState::Closed) && reason_rx.borrow().is_some();
+        if term && watches.iter().all(|w| w.ended.load(Ordering::SeqCst)) { break; }
+        tokio::time::sleep(Duration::from_millis(100)).await;
+    }
     out.peer = peer_text(*peer_rx.borrow()).into(); out.sig = sig_text(*sig_rx.borrow()).into(); out.reason = reason_text(&reason_rx.borrow()).into();
     out.chan_events = watches.iter().map(|w| w.closes.load(Ordering::SeqCst)).collect();
     out.recv_ended = watches.iter().map(|w| w.ended.load(Ordering::SeqCst)).collect();
